@@ -196,3 +196,13 @@ Proof.
   eapply PSub_step; [exact Hu | | apply PSub_refl].
   unfold eff_supers. cbn [pd_supers]. apply in_or_app. left. left. reflexivity.
 Qed.
+
+(* a fact of a PLAIN predicate (global scope or a class that is no smart type) that reaches both Impulse and Interval gets BOTH
+   rules (solver::new_atom: two independent tests), the Impulse one first *)
+Lemma fact_rules_plain_both : forall prog pd names,
+  owner_kind_of prog pd = OwnPlain -> In id_Impulse names -> In id_Interval names ->
+  fact_rules prog pd names = [id_Impulse; id_Interval].
+Proof.
+  intros prog pd names Hk Hi Hv. unfold fact_rules. rewrite Hk.
+  apply mem_In in Hi. apply mem_In in Hv. rewrite Hi, Hv. reflexivity.
+Qed.
